@@ -175,9 +175,10 @@ def parse_ts_stream(rows, kind, config_free):
 class TSDetectorModel:
     """
     Nondeterministic reference for "one report per n consecutive well-formed sets (idle gaps allowed), never on other
-    data".  Where the statement is silent -- whether *valid* garbage between sets breaks "consecutive" -- both readings
-    are kept as candidates (set of possible counts); a report is demanded only if every candidate demands it, and
-    tolerated if at least one candidate allows it.
+    data".  Where the statement is silent -- whether a *valid* stray word between sets (one that does not even begin a set)
+    breaks "consecutive" -- both readings are kept as candidates (set of possible counts); a report is demanded only if every
+    candidate demands it, and tolerated if at least one candidate allows it.  A set that is begun and not completed always
+    ends the run.
     """
 
     def __init__(self, n):
@@ -195,7 +196,12 @@ class TSDetectorModel:
                 return ("no_false", "report without a completed ordered set")
             return None
         if event[0] == "garbage":
-            self.counts = self.counts | {0}
+            if event[1] >= 1:
+                # this word begins an ordered set that is then not completed (truncated / corrupted set): a malformed set
+                # between two sets certainly ends a run of "consecutive, well-formed" sets
+                self.counts = {0}
+            else:
+                self.counts = self.counts | {0}
             if reported:
                 return ("no_false", "report on a word that is not part of a well-formed ordered set")
             return None
